@@ -11,17 +11,19 @@ Definition table_dist (vs : list vec) (m : list (list Z)) (a b : vec) : Z :=
 Definition ord_id (l : list edge) : list edge := l.
 
 (* reload = Save + Load into a fresh index: tombstones and links to them disappear, serials are renumbered *)
+Fixpoint index_of (n : nat) (l : list nat) (i : nat) : option nat :=
+  match l with [] => None | x :: t => if Nat.eqb x n then Some i else index_of n t (S i) end.
+Definition reload_vertex (s : hnsw) (livs : list nat) (n : nat) : vertex :=
+  let v := vget s n in
+  let fix_edges (es : list edge) : list edge :=
+    flat_map (fun e => match index_of (fst e) livs 0%nat with Some j => if negb (vdel (vget s (fst e))) then [(j, snd e)] else [] | None => [] end) es in
+  {| vid := vid v; vvec := vvec v; vmeta := vmeta v; vlevel := vlevel v; vdel := false; vedges := map fix_edges (vedges v) |}.
 Definition reload (s : hnsw) : hnsw :=
   let livs := map snd (rev (idmap s)) in                       (* old serials of live vertices, in insertion order *)
-  let renum (n : nat) : option nat := (fix f (l : list nat) (i : nat) := match l with [] => None | x :: t => if Nat.eqb x n then Some i else f t (S i) end) livs 0%nat in
-  let fix_edges (es : list edge) : list edge :=
-    flat_map (fun e => match renum (fst e) with Some j => if negb (vdel (vget s (fst e))) then [(j, snd e)] else [] | None => [] end) es in
-  {| arena := map (fun n => let v := vget s n in
-                            {| vid := vid v; vvec := vvec v; vmeta := vmeta v; vlevel := vlevel v; vdel := false;
-                               vedges := map fix_edges (vedges v) |}) livs;
-     idmap := rev (map (fun p => (fst p, match renum (snd p) with Some j => j | None => 0%nat end)) (rev (idmap s)));
-     entry := match entry s with Some e => renum e | None => None end;
-     hlen := N.of_nat (length livs);
+  {| arena := map (reload_vertex s livs) livs;
+     idmap := rev (map (fun p => (fst p, match index_of (snd p) livs 0%nat with Some j => j | None => 0%nat end)) (rev (idmap s)));
+     entry := match entry s with Some e => index_of e livs 0%nat | None => None end;
+     hlen := wrap (N.of_nat (length livs));                     (* Load counts the vertices it stores in the 64-bit counter *)
      hbytes := wrap (fold_right (fun n a => item_bytes (vvec (vget s n)) (vmeta (vget s n)) + a) 0 livs) |}.
 
 Inductive hop :=
